@@ -818,11 +818,14 @@ ValidPolySetG(paths, g) ==
 ValidPolySet(paths) == \E g \in {1, -1} : ValidPolySetG(paths, g)
 \* with two AddPaths groups each group is offset on its own (orientation is decided per group), so each
 \* must be a valid polygon set of the same global orientation
+\* (judged on the paths with repeated points removed: a ring may be written with any vertex repeated and with its
+\*  first vertex repeated once or more at the end)
 ValidGroups(e) ==
+  LET P == Src(e) IN
   \E g \in {1, -1} :
-     /\ ValidPolySetG(e.paths, g)
-     /\ (e.split > 0 /\ e.split < Len(e.paths)) =>
-           (ValidPolySetG(SubSeq(e.paths, 1, e.split), g) /\ ValidPolySetG(SubSeq(e.paths, e.split + 1, Len(e.paths)), g))
+     /\ ValidPolySetG(P, g)
+     /\ (e.split > 0 /\ e.split < Len(P)) =>
+           (ValidPolySetG(SubSeq(P, 1, e.split), g) /\ ValidPolySetG(SubSeq(P, e.split + 1, Len(P)), g))
 
 \* x4: extra tolerance in quarter units (0 for the property; 4 in the signature of the listed finding "offset-rounding-3")
 InflateRegionOK(e, x4) ==
